@@ -172,6 +172,15 @@ async def _run(rng, desc):
             await asyncio.sleep(step['task_delay'])
             world.log('reconnect_called', frm='task')
             await client.reconnect()
+            if step.get('during'):
+                # requests issued while the client is reconnecting (the provider or connect() may be suspended):
+                # whatever becomes of them, nothing may precede SETUP on the new transport
+                for _ in range(step['during']):
+                    await asyncio.sleep(0)
+                during = await issue_pending(['rr', 'stream'][:step['during']])
+                for _, _, obj in during:
+                    if hasattr(obj, 'add_done_callback'):
+                        obj.add_done_callback(lambda f: f.cancelled() or f.exception())
         # wait for the new connection (bounded, virtual)
         deadline = loop.time() + 4 * L + 10.0
         while len(conns) == nconn and loop.time() < deadline:
@@ -280,7 +289,7 @@ def gen_case(rng):
     nr = rng.choice([1, 1, 2, 3])
     rounds = []
     for _ in range(nr):
-        rounds.append({'cause': rng.choice(CAUSES), 'cut_in': rng.choice([1, 2, 3, 5]),
+        rounds.append({'cause': rng.choice(CAUSES), 'cut_in': rng.choice([1, 2, 3, 5]), 'during': rng.choice([0, 0, 1, 2]),
                        'pending': rng.choice([[], ['rr'], ['stream'], ['channel'], ['channel-up'], ['channel-up', 'stream'],
                                               ['rr', 'stream', 'channel'], ['rr', 'rr']]),
                        'before': rng.choice([0.0, 0.01, 0.12, 0.6, rng.random()]),
